@@ -618,7 +618,7 @@ def check_mtf(ctx, rec, wl, hys):
             dl_exact = D.mtf_linear(pup['A'].astype(complex), len(y), axis)
             dl_closed = D.diffraction_limit(kk / (N - 1.0))
             sc = maxabs(dl_exact - dl_closed)
-            if sc > 1.0 / N:
+            if sc > 2.0 / N:       # (sampling error of a disk on an N-grid: observed up to 1.13/N over the thorough tier)
                 raise D.OracleSelfCheck(f'discrete diffraction limit is {sc * N:.2f}/N from the closed form')
             generic_curve_clauses(rec, y, f'FFTMTF {name} Hy={hy} N={N} grid={g}', dl_exact, dl_closed, 2.0 / N,
                                   fl_start, fl_dl, model_ok)
